@@ -1,6 +1,7 @@
 """C15 — recorded traces replay (narrow: RK6 mirror struct, RK1 writer/reader agreement, forwarding)."""
 from tfv.tast import walk, strip, ekey, calls_in, pat_variants
 from tfv.prov import Scope
+from . import sites
 
 EXPLANATION = ("r1: the serialized mirror of DataContext has the same fields with the same types and both From "
                "conversions move every field (a context survives being written to a trace). r2: for each resolver, "
@@ -175,6 +176,51 @@ def run(ctx, R):
         if m != "resolve_starting_vertices":
             R.floor("r3", "output maps in %s" % m, n_maps, 1)
     fifo_rule(ctx, R)
+    borrow_discipline(ctx, R)
+
+
+# ---- r5: the tracer cell is never held across a call into the wrapped adapter ------------------------------------------
+def borrow_discipline(ctx, R):
+    """The recording adapter keeps its trace in a RefCell that its own input/output closures borrow again whenever the
+    wrapped adapter pulls an input or yields an outcome. A `RefMut` that is still alive when the wrapped adapter's resolver
+    is called makes every adapter that pulls eagerly (batching, peeking, warm-up) panic with `already borrowed` - tracing
+    would no longer equal direct execution. Lock-discipline rule: every named `RefMut` binding in the tap is released
+    (explicit drop, or end of its block) before the next call of a resolver of the wrapped adapter in the same block."""
+    C = ctx.core
+    R.rule("r5", "no RefMut of the tracer is alive across a call into the wrapped adapter (released by drop(..) or scope end first)")
+    guards = 0
+    for f in C.fns:
+        if not f["path"].startswith(("<" + INTERP + "trace::AdapterTap", INTERP + "trace::AdapterTap")):
+            continue
+        for blk in walk(f["body"]):
+            if blk.get("k") != "block":
+                continue
+            stmts = list(blk.get("stmts", [])) + ([blk["tail"]] if "tail" in blk else [])
+            for i, s in enumerate(stmts):
+                if not (s.get("k") == "let" and s["pat"].get("k") == "bind" and "init" in s):
+                    continue
+                ty = C.S(strip(s["init"]).get("ty")) or ""
+                if not ty.startswith("core::cell::RefMut<"):
+                    continue
+                guards += 1
+                bid = s["pat"]["bid"]
+                released = False
+                bad = None
+                for later in stmts[i + 1:]:
+                    for n in walk(later):
+                        if n.get("k") == "call" and (n.get("callee") or "").endswith("mem::drop") and n.get("args") and \
+                                strip(n["args"][0]).get("k") == "local" and strip(n["args"][0]).get("bid") == bid:
+                            released = True
+                        if not released and n.get("k") in ("mcall", "call") and n.get("trait") == sites.ADAPTER and n.get("name") in sites.RESOLVERS:
+                            bad = bad or n
+                    if released:
+                        break
+                R.check(bad is None, "r5", "released-before-inner-call/%s/%s" % (f["path"].split("::")[-1], s["pat"]["name"]),
+                        C.loc((bad or s)["sp"]),
+                        "in %s the RefMut `%s` of the tracer is still alive when the wrapped adapter's %s is called: an adapter that pulls "
+                        "an input inside that call re-enters the tap's closures, which borrow the same RefCell again and panic "
+                        "(`already borrowed`)" % (f["path"].split("::")[-1], s["pat"]["name"], bad and bad.get("name")))
+    R.floor("r5", "named RefMut bindings in the recording adapter", guards, 4)
 
 
 # ---- r4: the replay readers hand back buffered input contexts in the order they were recorded (FIFO) -------------------
